@@ -530,11 +530,14 @@ class C11(Oracle):
             nm = len(strref.replace_matches(pre.text, op['old'], op.get('count', -1)))
             if nm >= 2:
                 w.count('probe:replace_two_or_more_matches_%s' % ('plain' if plain else 'formatted_replacement'))
-            self._cmp(ctx, post, models.m_replace(pre, op['old'], no, plain, op.get('count', -1)), 'replace')
+            # for replace the clauses determine the text as well: characters outside the matches unchanged and
+            # every match replaced by the replacement -> a different text means some match was not (or not
+            # properly) replaced
+            _expect(post, models.m_replace(pre, op['old'], no, plain, op.get('count', -1)), 'replace')
         elif k == 'expandtabs':
             tab = op.get('tab', 8)
             exp = models.m_replace(pre, '\t', observe(' ' * tab), True, -1)
-            self._cmp(ctx, post, exp, 'expandtabs')
+            _expect(post, exp, 'expandtabs')
 
     def nontrivial(self, ctx):
         k = ctx.kind
